@@ -2,6 +2,7 @@ package config
 
 import (
 	"fmt"
+	"math"
 	"regexp"
 	"strconv"
 	"strings"
@@ -500,6 +501,12 @@ func tryConvertToFloat(v any) (float64, bool) {
 // their values, they compare on an equal footing.
 // This function can never fail, so it's not named "tryConvert" like the others.
 func convertToString(v any) string {
+	// JSON numbers arrive as float64. Print a whole number the way the same number
+	// prints when it arrives as an integer; %v would switch to exponent notation
+	// from 1e+06 on and the two encodings would no longer compare equal.
+	if f, ok := v.(float64); ok && f == math.Trunc(f) && math.Abs(f) < 1<<63 {
+		return strconv.FormatInt(int64(f), 10)
+	}
 	return fmt.Sprintf("%v", v)
 }
 
